@@ -95,6 +95,8 @@ type Message struct {
 	FixedHeader packets.FixedHeader `json:"fixedheader"`             // the header properties of the message
 	Created     int64               `json:"created,omitempty"`       // the time the message was created in unixtime
 	Sent        int64               `json:"sent,omitempty"`          // the last time the message was sent (for retries) in unixtime (if inflight)
+	Expiry      int64               `json:"expiry,omitempty"`        // the time the message expires in unixtime
+	Version     byte                `json:"version,omitempty"`       // the protocol version the message was published with (expiry applies to v5)
 	PacketID    uint16              `json:"packet_id,omitempty"`     // the unique id of the packet (if inflight)
 }
 
@@ -133,6 +135,7 @@ func (d *Message) ToPacket() packets.Packet {
 		Payload:     d.Payload,
 		Origin:      d.Origin,
 		Created:     d.Created,
+		Expiry:      d.Expiry,
 		Properties: packets.Properties{
 			PayloadFormat:          d.Properties.PayloadFormat,
 			PayloadFormatFlag:      d.Properties.PayloadFormatFlag,
@@ -150,6 +153,7 @@ func (d *Message) ToPacket() packets.Packet {
 	// continue pointing at the values from the storage packet.
 	pk = pk.Copy(true)
 	pk.FixedHeader.Dup = d.FixedHeader.Dup
+	pk.ProtocolVersion = d.Version
 
 	return pk
 }
